@@ -109,6 +109,18 @@ func Unsafe(p string, ntfs, hfs bool, g Guard) bool {
 	return false
 }
 
+// UnsafeOnlyByTrailingBackslashes: p is unsafe, and stops being unsafe when
+// its trailing run of '/' and '\\' characters is cut off: on a host where
+// backslash is an ordinary file-name character the path names a file called
+// "\" (or "\\", ...) inside a ".git" directory below the root.
+func UnsafeOnlyByTrailingBackslashes(p string, ntfs, hfs bool, g Guard) bool {
+	t := len(p)
+	for t > 0 && (p[t-1] == '/' || p[t-1] == '\\') {
+		t--
+	}
+	return Unsafe(p, ntfs, hfs, g) && !Unsafe(p[:t], ntfs, hfs, g)
+}
+
 // UnsafeSymlinkName reports whether creating a symbolic link named p plants a
 // ".gitmodules" symlink (read-cache.c verify_path_internal with S_ISLNK):
 // some component is ".gitmodules" in any ASCII case, or (hfs) folds to it on
